@@ -140,7 +140,22 @@ def method_rules(methods, selfname='self'):
     return rs
 
 
+def while_decl_rule(text):
+    """C++ 'while (T c = expr)' -> C 'T c; while ((c = expr))' (declaration in a condition)"""
+    n = 0
+    while True:
+        m = re.search(r'\bwhile\s*\(\s*(int|wchar_t|char|unsigned|byte)\s+(\w+)\s*=', text)
+        if not m:
+            return text, n
+        p = text.index('(', m.start())
+        pe = match_close(text, p, '(', ')')
+        cond = text[m.end():pe - 1]
+        text = text[:m.start()] + '%s %s; while ((%s =%s))' % (m.group(1), m.group(2), m.group(2), cond) + text[pe:]
+        n += 1
+
+
 COMMON_RULES = [
+    while_decl_rule,
     (r'(?<![\w:])::(?=[a-z_]\w*\()', '', None),            # ::free( -> free(
     (r'\bstatic const\b', 'const', None),                  # R5
     (r'\bASL_BAD_ALLOC\(\)', '__CPROVER_assume(0)', None),  # R8
@@ -575,3 +590,23 @@ def parse_cbmc(out, r, rc):
         for c in need:
             if not any(c in k for k in classes) and not any(c in o['id'] for o in r.obligations):
                 raise Undecided('vacuity: no obligation of class %s was generated' % c)
+
+
+def ifdef_rule(macro, defined):
+    """callable rule: resolves '#ifdef/#ifndef macro ... [#else ...] #endif' (non-nested) as if macro were (un)defined.
+    R13: the pinned Linux build defines neither _WIN32 nor ASL_ANSI."""
+    def rule(text):
+        n = 0
+        pat = re.compile(r'^[ \t]*#[ \t]*(ifdef|ifndef)[ \t]+%s\b[^\n]*\n(.*?)^[ \t]*#[ \t]*endif[^\n]*\n?' % re.escape(macro), re.S | re.M)
+        def sub(m):
+            nonlocal n
+            n += 1
+            body = m.group(2)
+            parts = re.split(r'^[ \t]*#[ \t]*else[^\n]*\n', body, maxsplit=1, flags=re.M)
+            first, second = parts[0], (parts[1] if len(parts) > 1 else '')
+            take_first = (m.group(1) == 'ifdef') == defined
+            return first if take_first else second
+        text = pat.sub(sub, text)
+        return text, n
+    rule.__name__ = 'ifdef_%s_%s' % (macro, 'defined' if defined else 'undefined')
+    return rule
